@@ -78,7 +78,8 @@ PROPS = {
 PROPS["C05"] = {
     "jobs": [
         {"name": "trees", "pkg": "./c05", "run": "^TestRapidTrees$", "rapid": T(20000, 40000), "shards": T(2, 16), "replay": "^TestReplay$"},
-        {"name": "regress", "pkg": "./c05", "run": "^TestRegress$"},
+        {"name": "regress", "pkg": "./c05", "run": "^(TestRegress|TestKnown)$"},
+        {"name": "context-branch", "pkg": "./c05", "run": "^TestContextBranchProbe$", "rapid": T(2000, 20000)},
     ],
     "assumptions": LP_ASSUME + ["UpdateContext only on a logger just produced by With() and not yet derived from (documented caution)",
                                 "branching happens at Logger values; two loggers derived from one intermediate Context value are probed separately (KF-C05-1)"],
